@@ -17,7 +17,8 @@ RULE = ("finite product {writer function or CLI output option} x {target exists 
         "file exists} x answer {'y','n','','yes','Y',' y'} x {confirmation on, off (--no_warnings)} x {str, pathlib.Path where "
         "accepted}: pre-existing targets hold sentinel bytes, input() is scripted and records prompts; quick tier: all non-plot "
         "combinations + a slice of the plot ones, thorough tier: the whole product. Non-trivial = target exists; combinations "
-        "are distinct by construction")
+        "are distinct by construction"
+        ' Round-3 addition: existing targets that are empty files.')
 ASSUMPTIONS = ["'replaced by the new output' is judged by loading the file with the matching reader / magic bytes",
                "builtins.input is the only confirmation channel"]
 SENTINEL = b"SENTINEL-do-not-touch-\x00\x01\n"
